@@ -47,7 +47,10 @@ func vxC10Run(c vxC10Case) (res vxC10Res, fail [2]string) {
 		mp = "identity"
 	}
 	cfg := vxCfg{Kind: c.Kind, NeverStop: true, Min: c.Min, Max: c.Max, Map: mp, Algo: "direct", Window: c.Window, StartPwm: c.Max, StartMode: 1}
-	if c.Kind == "file" {
+	if c.Kind == "file~" {
+		cfg.Kind, cfg.HomeRel = "file", true // file fan configured with home-relative paths
+	}
+	if cfg.Kind == "file" {
 		cfg.Min, cfg.Max = -1, -1
 	}
 	fx := vxNewFixRole(cfg, "search")
@@ -65,7 +68,7 @@ func vxC10Run(c vxC10Case) (res vxC10Res, fail [2]string) {
 		}
 		return 0
 	}
-	if c.Kind == "file" {
+	if cfg.Kind == "file" {
 		fx.fs.F(fx.dev.Rpm).OnRead = func() (int, error) { return fx.dev.RpmOf(fx.fs.Val(fx.dev.Pwm)), nil }
 	}
 	cyclesPerPoll, pollsPerCycle := 1, 1
@@ -243,9 +246,9 @@ func TestVX_C10(t *testing.T) {
 		thetaStep = 8
 	}
 	var cases []vxC10Case
-	for _, kind := range []string{"hwmon", "file"} {
+	for _, kind := range []string{"hwmon", "file", "file~"} {
 		for _, l := range limits {
-			if kind == "file" && (l[0] != 0 || l[1] != 255) {
+			if kind != "hwmon" && (l[0] != 0 || l[1] != 255) {
 				continue
 			}
 			var thetas []int
